@@ -89,6 +89,7 @@ def parseLabel (j : Json) : R Label := do
   | [.str "acquire", l] => return .acquire (← parseLk l)
   | [.str "release", l] => return .release (← parseLk l)
   | [.str "send", c] => return .send (← c.getNat?)
+  | [.str "recv"] => return .recv
   | [.str "end"] => return .fin
   | _ => throw s!"bad label {j.compress}"
 
@@ -116,7 +117,13 @@ def parseSetup (j : Json) : R Setup := do
   let broken ← match j.getObjVal? "logFails" with
     | .ok x => (do return (← (← x.getArr?).toList.mapM (·.getNat?)))
     | .error _ => pure []
-  let cfg : Cfg := ⟨mods.map (·.1), lookupD mods [], conns, fun c => broken.contains c⟩
+  let omitL ← match j.getObjVal? "omitSame" with
+    | .ok x => (do (← arr x).mapM (fun y => do
+        match (← arr y) with
+        | [m, p] => return ((← parseMod m), (← p.getStr?).toList)
+        | _ => throw "bad omitSame item"))
+    | .error _ => pure []
+  let cfg : Cfg := ⟨mods.map (·.1), lookupD mods [], conns, fun c => broken.contains c, fun m p => omitL.contains (m, p)⟩
   return ⟨cfg, fun m p => lookupD cache (.err 0) (m, p), mods.flatMap (fun x => x.2.map (fun p => (x.1, p)))⟩
 
 /-- run the invisible actions of thread `t` -/
@@ -133,10 +140,31 @@ def runInvisible (cfg : Cfg) : Nat → State → Tid → State
 structure RS where
   σ : State
   parked : List (Tid × Label)
+  /-- the dispatcher's tables after every completed operation: (index of the `reply` / `emitDone` event, tables) -/
+  tabs : List (Nat × Json) := []
+
+/-- `_active_connections` and the non-empty entries of `_subscriptions`, over the candidate keys `keys` -/
+def tablesJson (cfg : Cfg) (keys : List Activate.Name) (σ : State) : Json :=
+  Json.mkObj [
+    ("active", jnats (cfg.conns.filter (fun c => σ.active c))),
+    ("subs", jarr ((keys.filterMap (fun k =>
+      let l := cfg.conns.filter (fun c => σ.subs k c)
+      if l.isEmpty then none else some (jarr [nameJson k, jnats l])))))]
+
+def completes : Obs → Bool
+  | .reply _ _ _ => true
+  | .emitDone _ => true
+  | _ => false
+
+/-- snapshots for the events appended between `σ` and `σ'` (no action both changes a table and appends such an event,
+and the invisible actions change no table: the tables of `σ'` are the tables at the event) -/
+def newTabs (cfg : Cfg) (keys : List Activate.Name) (σ σ' : State) : List (Nat × Json) :=
+  let n := σ.trace.length
+  (((σ'.trace.drop n).zipIdx).filter (fun x => completes x.1)).map (fun x => (n + x.2, tablesJson cfg keys σ'))
 
 /-- one entry of the scheduler trace: thread `t` has arrived at a yield point labelled `l`; this means it has
 executed the effect of the label it was parked at and everything up to the new yield point -/
-def replayEntry (cfg : Cfg) (rs : RS) (t : Tid) (l : Label) : Except String RS := do
+def replayEntry (cfg : Cfg) (keys : List Activate.Name) (rs : RS) (t : Tid) (l : Label) : Except String RS := do
   let σ1 ← match rs.parked.find? (fun x => x.1 == t) with
     | some (_, l0) =>
       let arg := match l0 with | .send c => c | _ => 0
@@ -146,15 +174,15 @@ def replayEntry (cfg : Cfg) (rs : RS) (t : Tid) (l : Label) : Except String RS :
     | none => pure rs.σ
   let σ2 := runInvisible cfg 64 σ1 t
   if labelFits σ2 t l then
-    return ⟨σ2, (t, l) :: rs.parked.filter (fun x => !(x.1 == t))⟩
+    return ⟨σ2, (t, l) :: rs.parked.filter (fun x => !(x.1 == t)), rs.tabs ++ newTabs cfg keys rs.σ σ2⟩
   else
     throw s!"model expects {repr (nextVisible σ2 t)}, implementation did {repr l}"
 
-def replayAll (cfg : Cfg) : RS → Nat → List (Tid × Label) → RS × Option (Nat × String)
+def replayAll (cfg : Cfg) (keys : List Activate.Name) : RS → Nat → List (Tid × Label) → RS × Option (Nat × String)
   | rs, _, [] => (rs, none)
   | rs, i, (t, l) :: rest =>
-    match replayEntry cfg rs t l with
-    | .ok rs' => replayAll cfg rs' (i + 1) rest
+    match replayEntry cfg keys rs t l with
+    | .ok rs' => replayAll cfg keys rs' (i + 1) rest
     | .error e => (rs, some (i, e))
 
 /-- is some unfinished thread able to move -/
@@ -189,11 +217,17 @@ def handle (j : Json) : R Json := do
       | _ => throw "bad schedule entry")
     let σ0 := init (lookupD hs []) (lookupD us []) su.cache
     let tids : List Tid := hs.map (fun x => Tid.h x.1) ++ us.map (fun x => Tid.u x.1)
-    let (rs, stuck) := replayAll su.cfg ⟨σ0, []⟩ 0 sched
+    -- candidate keys of the subscription table: every module, every exported parameter, every scope named in a script
+    let reqKeys := hs.flatMap (fun x => x.2.filterMap (fun r => match r with
+      | .activate s => if s == .all then none else some s.key
+      | _ => none))
+    let keys := (su.cfg.mods.map (·.val) ++ su.items.map (fun x => pkey x.1 x.2) ++ reqKeys).eraseDups
+    let (rs, stuck) := replayAll su.cfg keys ⟨σ0, [], []⟩ 0 sched
     -- flush: threads parked at their final label finish
     let σe := rs.parked.foldl (fun σ x => match x.2 with
       | .fin => (step su.cfg σ ⟨x.1, 0⟩).getD σ
       | _ => σ) rs.σ
+    let tabs := rs.tabs ++ newTabs su.cfg keys rs.σ σe
     let allDone := tids.all (finished σe)
     let dead := !allDone && !someEnabled su.cfg σe tids
     return Json.mkObj [
@@ -201,6 +235,8 @@ def handle (j : Json) : R Json := do
       ("why", match stuck with | some (_, e) => Json.str e | none => Json.null),
       ("trace", jarr (σe.trace.map obsJson)),
       ("cache", jarr (su.items.map (fun x => jarr [nameJson x.1.val, nameJson x.2, entryJson (σe.cache x.1 x.2)]))),
+      ("tabs", jarr (tabs.map (fun x => jarr [jnat x.1, x.2]))),
+      ("tables", tablesJson su.cfg keys σe),
       ("done", Json.bool allDone),
       ("deadlock", Json.bool dead)]
   | "judge" =>
@@ -211,6 +247,7 @@ def handle (j : Json) : R Json := do
       ("silent", bad (silentMon.firstBad silentMon.init 0 tr)),
       ("snapshot", bad ((snapMon su.cfg su.cache).firstBad (snapMon su.cfg su.cache).init 0 tr)),
       ("noloss", bad ((lossMon su.cfg).firstBad (lossMon su.cfg).init 0 tr)),
+      ("exported", bad ((tr.zipIdx.find? (fun x => !exportedOk su.cfg x.1)).map (·.2))),
       ("quiet", Json.bool (quietB tr)),
       ("quiescent", match q with | some (c, m, p) => jarr [jnat c, nameJson m.val, nameJson p] | none => Json.null),
       ("cache", jarr (su.items.map (fun x => jarr [nameJson x.1.val, nameJson x.2, entryJson (cacheAfter su.cache tr x.1 x.2)])))]
